@@ -1,6 +1,9 @@
 import GoguVerif.Go.Run
 import GoguVerif.Spec.C03
-/-! Driver wiring for C03 (heap). -/
+import GoguVerif.Model.Heap
+/-! Driver wiring for C03 (heap): the monitor (`monStep`, judges the implementation's answers) and,
+beside it, the array model of `heap.go` (`modelAnswer`), whose answers are compared with the
+implementation's for the exact comparators `lt`/`gt`. -/
 namespace GoguVerif.Kinds.Heap
 open GoguVerif Spec.C03
 
@@ -17,6 +20,9 @@ structure St where
   held : List Int
   /-- known finding `heap.delete-no-resift`: a Delete hit a slot that is neither the root nor the last -/
   tainted : Bool := false
+  /-- the array model of the code; `none` for the by-key comparators (ties: monitor only) and after
+  a model panic/hang -/
+  model : Option (Model.Heap.Heap Int) := none
   depth3 : Bool := false
   dups : Bool := false
 
@@ -38,7 +44,7 @@ def orderFail (st : St) (op clause : String) : Step St :=
   if st.tainted then { st := st, tags := [op], known := some "heap.delete-no-resift" }
   else fail st op clause
 
-def step (st : St) (l : Line) : Step St :=
+def monStep (st : St) (l : Line) : Step St :=
   match l.op, l.args, l.res with
   | "push", [.int v], [.atom "ok"] => ok (mk st (v :: st.held) st.tainted) "push"
   | "pushn", [vs], [.atom "ok"] =>
@@ -112,10 +118,102 @@ def step (st : St) (l : Line) : Step St :=
     | [.atom "hang"] => fail st op s!"terminates:{op}"
     | _ => { st := st, bad := some s!"bad heap line {op}" }
 
+/-! ## The model beside the monitor -/
+
+/-- exact comparators: the only ones for which the model's answers are compared -/
+def exactComp (c : String) : Bool := c == "lt" || c == "gt"
+
+def sortInts (l : List Int) : List Int := l.mergeSort (fun a b => decide (a ≤ b))
+
+/-- A list observable is compared as a multiset: if the implementation's list is a permutation of
+the model's, the model "answers" the implementation's token, otherwise its own sorted list. -/
+def canonList (model : List Int) (impl : Val) : Val :=
+  match impl.ints? with
+  | some il => if sortInts il == sortInts model then impl else Val.ofInts (sortInts model)
+  | none => Val.ofInts (sortInts model)
+
+def parseOp (l : Line) : Option (Spec.C03.Op Int) :=
+  match l.op, l.args with
+  | "push", [.int v] => some (.push v)
+  | "pushn", [vs] => vs.ints?.map .pushn
+  | "pop", [] => some .pop
+  | "peek", [] => some .peek
+  | "size", [] => some .size
+  | "isempty", [] => some .isEmpty
+  | "clear", [] => some .clear
+  | "values", [] => some .values
+  | "delete", [.int v] => some (.delete v)
+  | "convert", [.atom c] => (compOf c).map .convert
+  | "merge", [arg] => arg.ints?.map .merge
+  | "meld", [arg] => arg.ints?.map .meld
+  | "fromslice", [arg, .atom c] =>
+    match arg.ints?, compOf c with
+    | some a, some f => some (.fromSlice a f)
+    | _, _ => none
+  | _, _ => none
+
+/-- Render the model's answer in the shape of the protocol line.  Only the observables the property
+names are compared: values/merge results as multisets; the third token of `delete` (the victim's
+slot in the implementation's layout, printed by the harness for the monitor) is echoed. -/
+def renderOut (res : List Val) : Spec.C03.Out Int → List Val
+  | .unit => [.atom "ok"]
+  | .val x => [.int x]
+  | .int n => [.int n]
+  | .bool b => [Val.ofBool b]
+  | .del b => [Val.ofBool b, .atom (if b then "ok" else "err")] ++ res.drop 2
+  | .vals l => [canonList l (res.headD (.atom ""))]
+  | .merged r a n sr sa =>
+    [canonList r (res.headD (.atom "")), canonList a ((res.drop 1).headD (.atom "")),
+     canonList n ((res.drop 2).headD (.atom "")), .int sr, .int sa]
+
+/-- the comparator name after the line -/
+def nextCompName (cur : String) (l : Line) : String :=
+  match l.op, l.args with
+  | "convert", [.atom c] => c
+  | "fromslice", [_, .atom c] => c
+  | _, _ => cur
+
+/-- model answer and next model state for one line -/
+def modelAnswer (st : St) (l : Line) : Option (List Val) × Option (Model.Heap.Heap Int) :=
+  if l.op == "sort" then
+    match l.args with
+    | [arg, .atom c] =>
+      if exactComp c then
+        match arg.ints?, compOf c with
+        | some a, some f =>
+          match Model.Heap.sort a.toArray f with
+          | .ok out => (some [Val.ofInts out.toList], st.model)
+          | .panic => (some [.atom "panic"], st.model)
+          | .hang => (some [.atom "hang"], st.model)
+        | _, _ => (none, st.model)
+      else (none, st.model)
+    | _ => (none, st.model)
+  else
+    let c' := nextCompName st.compName l
+    -- `fromslice` builds a new heap: it (re-)creates the model whatever the state was
+    let cur : Option (Model.Heap.Heap Int) :=
+      if l.op == "fromslice" && exactComp c' then some (Model.Heap.new st.comp) else st.model
+    match cur, parseOp l with
+    | some m, some op =>
+      if !(exactComp c') then (none, none)
+      else
+        match Model.Heap.step m op with
+        | .ok (m', out) => (some (renderOut l.res out), some m')
+        | .panic => (some [.atom "panic"], none)
+        | .hang => (some [.atom "hang"], none)
+    | _, _ => (none, none)
+
+def step (st : St) (l : Line) : Step St :=
+  let r := monStep st l
+  let (ans, m') := modelAnswer st l
+  { r with st := { r.st with model := m' }, model := ans }
+
 def kind : Kind where
   σ := St
   init := fun ps => match ps with
-    | [.atom c] => (compOf c).map fun f => { comp := f, compName := c, held := [] }
+    | [.atom c] => (compOf c).map fun f =>
+      { comp := f, compName := c, held := [],
+        model := if exactComp c then some (Model.Heap.new f) else none }
     | _ => none
   step := step
 
